@@ -602,6 +602,8 @@ type opResult struct {
 	err    error
 	// storage calls of the fault-free run (the fault sub-check enumerates their indices)
 	attempts, exists, readers int
+	// calls to the signer and the key manager of the fault-free run
+	comps []string
 }
 
 // runHistory executes the fault-free history, a fresh process (fresh components) per operation as
@@ -625,7 +627,7 @@ func runHistory(name string, h *history) (*verdict, []opResult) {
 		ws := append([]rotsim.Write(nil), w.fs.Log...)
 		snaps := w.fs.Snaps
 		nd := w.durable()
-		r := opResult{before: d, pre: w.pre, ws: ws, err: opErr, attempts: w.fs.Attempts, exists: w.fs.ExistsCalls, readers: w.fs.ReaderCalls}
+		r := opResult{before: d, pre: w.pre, ws: ws, err: opErr, attempts: w.fs.Attempts, exists: w.fs.ExistsCalls, readers: w.fs.ReaderCalls, comps: append([]string(nil), w.comp.Calls...)}
 		w.Close()
 		res = append(res, r)
 		if v := checkOp(name, h, i, o.Tag, o.Kind, opErr, r.pre, ws, snaps); v != nil {
@@ -675,12 +677,16 @@ func runFault(name string, h *history, from *rotsim.Durable) *verdict {
 	w := build(d, h)
 	defer func() { w.Close() }()
 	fo := h.Ops[h.FailOp]
-	w.fs.Fault = h.Fault
+	if h.Fault.Kind == fComponentError {
+		w.comp.FailAt = h.Fault.Index
+	} else {
+		w.fs.Fault = h.Fault
+	}
 	failErr, pan, crashed := guarded(func() error { return runOp(w.context(fo), fo) })
 	if pan != nil {
 		return &verdict{Key: "C11/panic", Msg: fmt.Sprintf("operation %d (%s) of %s panicked with %s: %v", h.FailOp, fo.Tag, h, h.Fault, pan)}
 	}
-	if !w.fs.Fired {
+	if !w.fs.Fired && w.comp.Fired == "" {
 		ev.Class(name, "inconclusive: "+h.Fault.Kind+" not reached in "+fo.Kind)
 		return nil
 	}
@@ -691,8 +697,17 @@ func runFault(name string, h *history, from *rotsim.Durable) *verdict {
 		return nil
 	}
 	w.fs.Fault = fault{Index: -1}
+	w.comp.FailAt = -1
 	mid := len(w.fs.Log)
 	tag := fmt.Sprintf("%s!%s", fo.Tag, h.Fault)
+	if w.comp.Fired != "" {
+		tag += "(" + w.comp.Fired + ")"
+		kg := "without --keep_going"
+		if fo.KeepGoing {
+			kg = "with --keep_going"
+		}
+		ev.Class(name, fmt.Sprintf("failed call %s in %s %s", w.comp.Fired, fo.Kind, kg))
+	}
 	outcome := "returns an error"
 	switch {
 	case crashed:
@@ -710,7 +725,8 @@ func runFault(name string, h *history, from *rotsim.Durable) *verdict {
 	}
 	no := h.Ops[h.FailOp+1]
 	how := "same instance"
-	if crashed {
+	if crashed || h.Fault.Kind == fComponentError {
+		// (after a refusing signer / key manager the operator's next command is a new process)
 		nd := w.durable()
 		w.Close()
 		w = build(nd, h)
